@@ -43,6 +43,11 @@ CLAIMED = {
    "DESIGN.md §4 C12",
    "Trusted: the list of configuration-dependent module fields (Memory.Cap, CustomSections, DWARFLines) read off the decoder; syntactic paths; host modules get their identity at construction.",
    "static: SSA value identity and forward slicing, field-set inclusion between sibling paths, path-enumerating non-interference, dominance guards"),
+ "C16": ("other",
+   "Only structural necessary conditions are decided; the sequence behaviour against a POSIX-style model is NOT. Five clauses, each of which yields a concrete deviating sequence when broken: closed entries leave the descriptor table (incl. renumber onto itself), the 64-bit cookie reaches the dirent cache unnarrowed, descriptor allocation scans from word 0 (lowest-free), fd_readdir's bufused depends on the truncation indicator, cached dirents are returned only after the need-more test. Three of the five rules were added after seeded changes showed what the original single clause missed.",
+   "DESIGN.md §4 C16",
+   "Trusted: SSA dominance/forward-path search on syntactic paths; anchors by API (descriptor.Table methods, DirentCache.Read, the WASI function that calls it). Everything else of C16 (offsets, append, truncate, directory contents) is not decided by this check.",
+   "static: typestate/must-pass-through on go/ssa (dominance, forward path search), data/control dependence"),
 }
 
 NOT_APPLICABLE = {
